@@ -62,7 +62,17 @@ type specRun struct {
 	nilRes bool
 }
 
-func runSpec(docText string, cont bool) (r specRun) {
+// specOptsFor chooses the two public switches of the spec validator that must not influence the
+// verdict direction examined here (SkipSchemataResult: no schemata recorded; StrictPathParamUniqueness:
+// only about overlapping paths) for document number i in continue-mode cont: every document meets both
+// values of SkipSchemataResult across its two modes, neighbouring edits alternate.
+func specOptsFor(i int, cont bool) (skipSchemata, strictPaths bool) {
+	return (i%2 == 0) != cont, (i/2)%2 == 0
+}
+
+func runSpec(docText string, cont bool) (r specRun) { return runSpecOpts(docText, cont, false, true) }
+
+func runSpecOpts(docText string, cont, skipSchemata, strictPaths bool) (r specRun) {
 	doc, err := loads.Analyzed(json.RawMessage(docText), "")
 	if err != nil {
 		return specRun{}
@@ -76,6 +86,8 @@ func runSpec(docText string, cont bool) (r specRun) {
 	}()
 	sv := validate.NewSpecValidator(doc.Schema(), strfmt.Default)
 	sv.SetContinueOnErrors(cont)
+	sv.Options.SkipSchemataResult = skipSchemata
+	sv.Options.StrictPathParamUniqueness = strictPaths
 	e, w := sv.Validate(doc)
 	if e == nil || w == nil {
 		r.nilRes = true
@@ -131,7 +143,7 @@ func quickEdit(desc string) bool {
 	switch {
 	case strings.HasPrefix(desc, "delete "), strings.HasSuffix(desc, " to null"), strings.HasPrefix(desc, "set "), strings.HasPrefix(desc, "add $ref \"#/definitions/Nope"), strings.HasPrefix(desc, "add patternProperties"):
 		return true
-	case strings.HasPrefix(desc, "rename ") && strings.Contains(desc, `/default to "example"`), strings.HasPrefix(desc, "add type string to the body"), strings.HasPrefix(desc, "add additionalItems"):
+	case strings.HasPrefix(desc, "rename ") && strings.Contains(desc, `/default to "example"`), strings.HasPrefix(desc, "add type string to the body"), strings.HasPrefix(desc, "add additionalItems"), strings.HasPrefix(desc, "retarget "):
 		return true
 	case strings.HasPrefix(desc, "rename ") && (strings.HasSuffix(desc, `to "id"`) || strings.HasSuffix(desc, `to "a.a"`) || strings.HasSuffix(desc, `to ""`)):
 		return true
@@ -159,7 +171,7 @@ func c02(c *hx.Ctx) int {
 		return c02worker(c)
 	}
 	if c.Quick() {
-		c.Budget = 240 * second
+		c.Budget = 420 * second
 	} else {
 		c.Budget = 1800 * second
 	}
@@ -241,7 +253,14 @@ func c02worker(c *hx.Ctx) int {
 		counted := false
 		for _, cont := range []bool{false, true} {
 			t1 := time.Now()
-			r := runSpec(e.Doc, cont)
+			skip, strict := specOptsFor(i, cont)
+			r := runSpecOpts(e.Doc, cont, skip, strict)
+			if !c.Quick() && r.loaded && r.panic == "" && !r.nilRes && !valid && len(r.errs) > 0 {
+				// thorough: the other value of SkipSchemataResult too (reported through the same path)
+				if r2 := runSpecOpts(e.Doc, cont, !skip, strict); r2.loaded && r2.panic == "" && !r2.nilRes && len(r2.errs) == 0 {
+					r = r2
+				}
+			}
 			rep.Inc("t_validate_ms", time.Since(t1).Milliseconds())
 			if !r.loaded {
 				break
@@ -426,7 +445,7 @@ func c07(c *hx.Ctx) int {
 		return c07worker(c)
 	}
 	if c.Quick() {
-		c.Budget = 240 * second
+		c.Budget = 420 * second
 	} else {
 		c.Budget = 1800 * second
 	}
@@ -541,7 +560,8 @@ func c07worker(c *hx.Ctx) int {
 		hx.AnnounceCase(e.Seed + ": " + e.Desc)
 		counted := false
 		for _, cont := range []bool{false, true} {
-			r := runSpec(e.Doc, cont)
+			skip, strict := specOptsFor(i, cont)
+			r := runSpecOpts(e.Doc, cont, skip, strict)
 			if !r.loaded {
 				break
 			}
